@@ -741,6 +741,14 @@ func (fe *FnEnc) alloc(x *ssa.Alloc) Val {
 		a := &Addr{Root: rootHeap, RootT: et, Ref: ref, Nil: "false"}
 		keys := s.store(fe.mem, a, s.zero(et))
 		fe.recordMod(append(keys, "ghost:"+k))
+		if gd := fe.g.guardFor(et); gd != nil {
+			// a fresh object's mutex is free
+			gk := "lock_" + mangle(types.TypeString(et, nil)) + "_" + gd.Mutex
+			fe.g.ghostSorts[gk] = "(Array Int Int)"
+			cur := s.ghostGet(fe.mem, gk, "(Array Int Int)")
+			fe.mem.ghost[gk] = s.name("lk", "(Array Int Int)", "(store "+cur+" "+ref+" 0)")
+			fe.recordMod([]string{"ghost:" + gk})
+		}
 		return Val{T: x.Type(), Addr: a, Term: ref}
 	}
 	ck := fe.newCell("loc_"+mangle(x.Comment), et, s.zero(et))
@@ -1007,6 +1015,9 @@ func (fe *FnEnc) guardCheck(a *Addr, write bool, pos token.Pos) {
 		kind = "lock:write"
 		cond = "(= " + stt + " 2)"
 	}
+	// objects allocated by this very call are not shared yet
+	nk := "next_" + sortID(fe.s.sortOf(a.RootT))
+	cond = "(or " + cond + " (>= " + a.Ref + " " + fe.s.ghostGet(fe.top.entryMem, nk, "Int") + "))"
 	top.sites[kind]++
 	fe.check(kind, fmt.Sprintf("@%d.%s", top.sites[kind], fname), cond, "access to guarded field "+fname+" with the lock held", pos)
 }
